@@ -2,7 +2,6 @@ package main
 
 import (
 	"fmt"
-	"math"
 	"reflect"
 	"sort"
 	"strings"
@@ -161,7 +160,7 @@ func dumpExpr(sb *strings.Builder, e ast.Expression) {
 	case *ast.IntegerLiteral:
 		fmt.Fprintf(sb, "(int %d %d)", n.Line(), n.Value)
 	case *ast.FloatLiteral:
-		fmt.Fprintf(sb, "(float %d %016x)", n.Line(), math.Float64bits(n.Value))
+		fmt.Fprintf(sb, "(float %d %s)", n.Line(), hx(n.Token.Literal))
 	case *ast.StringLiteral:
 		fmt.Fprintf(sb, "(str %d %s)", n.Line(), hx(n.Value))
 	case *ast.NilLiteral:
